@@ -51,7 +51,28 @@ def gen_case(rng, exact=True):
     refine = rng.random() < 0.5
     simplify = rng.random() < 0.5
     order = rng.choice(ORDERS + [rng.sample([1, 2, 3, 4, 5], rng.randint(1, 5))])
+    if rng.random() < 0.12:
+        # LP-active rows with a non-symmetric coefficient matrix on two eliminated variables (tactic 5 territory)
+        u, v2 = vs[0], vs[1]
+        keep = [x for x in vs[2:]] or ["k"]
+        elim = [u, v2]
+        a11, a12, a21, a22 = (rng.choice(gen.POW2) for _ in range(4))
+        if a11 * a22 == a12 * a21:
+            a22 = a22 * 2
+        k1, k2 = rng.choice(keep), rng.choice(keep)
+        ctx = [({u: a11, v2: a12, k1: gen.rand_coef(rng)}, F(rng.randint(0, 6))), ({u: a21, v2: a22, k2: gen.rand_coef(rng)}, F(rng.randint(0, 6)))]
+        lam1, lam2 = F(rng.randint(1, 3)), F(rng.randint(1, 3))
+        sgn = 1 if refine else -1
+        ts = [({u: sgn * (lam1 * a11 + lam2 * a21), v2: sgn * (lam1 * a12 + lam2 * a22), rng.choice(keep): gen.rand_coef(rng)}, F(rng.randint(0, 8)))]
+        order = rng.choice([[5], [5, 1], [2, 5]])
+        simplify = False
     return ts, ctx, elim, refine, simplify, order
+
+
+def exact_safe(ts, elim):
+    """float arithmetic of the tactics stays exact when every transformed term mentions at most one eliminated variable
+    (all pivots are then powers of two); otherwise coefficient cancellations can differ between floats and rationals"""
+    return all(sum(1 for v in t[0] if v in elim) <= 1 for t in ts)
 
 
 def oracle(ts, ctx, elim, refine, okind, v):
@@ -101,9 +122,12 @@ def check(ctx):
         else:
             okind, v, calls = pp.observe(lambda: tl.elim_vars_by_relaxing(cobj, ev, simplify, list(order)))
         fn = "c_refine" if refine else "c_relax"
-        exprs.append(f"{fn} {cf.q(TAU)} {record.coq_table(calls)} {cf.terms(ts)} {cf.terms(c)} {cf.svars(elim)} "
-                     f"{cf.boolean(simplify)} {cf.natlist(order)} {pp.exp_elim(okind, v)}")
-        cases.append((ts, c, elim, refine, simplify, order, okind, v))
+        if exact_safe(ts, elim):
+            exprs.append(f"{fn} {cf.q(TAU)} {record.coq_table(calls)} {cf.terms(ts)} {cf.terms(c)} {cf.svars(elim)} "
+                         f"{cf.boolean(simplify)} {cf.natlist(order)} {pp.exp_elim(okind, v)}")
+            cases.append((ts, c, elim, refine, simplify, order, okind, v))
+        else:
+            hist["oracle_only(inexact-prone)"] = hist.get("oracle_only(inexact-prone)", 0) + 1
         pp.validate_lp(ctx, calls)
         if okind == "ok":
             for s in v[1]:
